@@ -304,4 +304,21 @@ theorem arrSet_out {lo hi : Nat} {h1 h : Heap} (o : Out lo hi h1 h) {a : Nat} (h
       · exact o
     · exact o
 
+theorem readInfos_out {lo hi : Nat} {h1 h : Heap} (o : Out lo hi h1 h) {a : Nat} (ha : Off lo hi a) : Out lo hi h1 (readInfos h a).1 := by
+  have key : ∀ t, Out lo hi h1 (getInfos t h a).1 := by
+    intro t
+    unfold getInfos
+    split
+    · exact o
+    · rename_i s hs
+      obtain ⟨_, hd, hg⟩ := outSV o ha hs
+      split
+      · exact o
+      · exact (o.al .clone (by simp [refsOf])).wr hd _ (refs_insert_weak (by intro x; simp) hg)
+  have := key infosTest
+  unfold readInfos
+  split
+  · rename_i h2 ow he; rw [he] at this; exact this
+  · rename_i h2 he; rw [he] at this; exact this
+
 end BeyondVerif.Heap
